@@ -621,7 +621,7 @@ func genName(t *rapid.T, arbitrary bool) string {
 	}
 	switch rapid.IntRange(0, 3).Draw(t, "gmp") {
 	case 0:
-		n += "-" + rapid.SampledFrom([]string{"1", "4", "8", "9", "96", "192"}).Draw(t, "procs")
+		n += "-" + rapid.SampledFrom([]string{"1", "4", "8", "9", "96", "192", "0", "08", "00", "0822"}).Draw(t, "procs")
 	case 1:
 		if vcase.OneIn(t, 3, "explicitgmp") {
 			n += "/gomaxprocs=" + rapid.SampledFrom([]string{"1", "4"}).Draw(t, "eprocs")
